@@ -137,6 +137,38 @@ def chk_acknak(kind, res, nrdy, ack) -> Result:
     return r
 
 
+def chk_wire_seq(frames) -> Result:
+    """Several frames written one after another through ONE protocol instance: what is written for a frame must not
+    depend on what the instance wrote before.  frames = [["ack"|"nak", res, nrdy, ack] | ["data", frm, retx, ack, hex] | ["rst"]]"""
+    import bellows.ash as ash
+
+    plan = {"t": "wseq", "frames": frames}
+    r = Result(nontrivial=len(frames) > 1, classes=["wire-sequence"], key=[9, frames])
+    proto, tr, up = make_host()
+    for k, fr in enumerate(frames):
+        kind = fr[0]
+        if kind in ("ack", "nak"):
+            f = (ash.AckFrame if kind == "ack" else ash.NakFrame)(res=fr[1], ncp_ready=fr[2], ack_num=fr[3])
+            ref = (refash.enc_ack if kind == "ack" else refash.enc_nak)(fr[3], fr[2], fr[1])
+        elif kind == "data":
+            f = ash.DataFrame(frm_num=fr[1], re_tx=fr[2], ack_num=fr[3], ezsp_frame=bytes.fromhex(fr[4]))
+            ref = refash.enc_data(fr[1], fr[2], fr[3], bytes.fromhex(fr[4]))
+        else:
+            f = ash.RstFrame()
+            ref = refash.enc_rst()
+        n0 = len(tr.writes)
+        try:
+            proto._write_frame(f)
+        except Exception as e:
+            r.bad("C03:write-raises", f"frame {k} of {plan}: {e!r}")
+            return r
+        got = b"".join(d for _, d in tr.writes[n0:])
+        if got != refash.wire(ref):
+            r.bad("C03:wire-mismatch:depends-on-earlier-writes", f"frame {k} {fr} of {plan}: impl {got.hex()} ref {refash.wire(ref).hex()}")
+            return r
+    return r
+
+
 def chk_rst() -> Result:
     import bellows.ash as ash
 
@@ -316,6 +348,7 @@ DISPATCH = {
     "corrupt": lambda p: chk_corrupt(p["raw"], p["bits"]),
     "lfsr": lambda p: chk_lfsr(),
     "send": lambda p: chk_send(bytes.fromhex(p["payload"]), p["tx"], p["rx"]),
+    "wseq": lambda p: chk_wire_seq(p["frames"]),
 }
 
 
@@ -374,6 +407,13 @@ def run(ctx):
         for n in (0, 2, 4):
             ctx.check({"t": "classify", "control": control, "n": n}, chk_classify(control, n), sample=(control == 0xC3))
     ctx.exhaustive["control fields, codes, classification"] = True
+    # every ordered pair of distinct ACK/NAK frames written by one protocol instance
+    an = [[k, res, nrdy, ack] for k in ("ack", "nak") for res in (0, 1) for nrdy in (0, 1) for ack in range(8)]
+    for a in an:
+        for b in an:
+            if a != b:
+                ctx.check({"t": "wseq", "frames": [a, b]}, chk_wire_seq([a, b]), sample=(a == an[3] and b == an[11]))
+    ctx.exhaustive["ordered pairs of ACK/NAK frames through one instance"] = True
 
     lengths = [0, 1, 2, 3, 7, 8, 127, 128, 129, 200] if quick else list(range(0, 201))
     jobs = [lengths[i::16] for i in range(16)]
@@ -402,3 +442,10 @@ def run(ctx):
                              st.lists(st.sampled_from(list(RES)), min_size=1, max_size=100).map(bytes)).map(bytes.hex),
     })
     ctx.search(strat2, replay, max_examples=100 if quick else 2000)
+    fr = st.one_of(
+        st.tuples(st.sampled_from(["ack", "nak"]), st.integers(0, 1), st.integers(0, 1), st.integers(0, 7)).map(list),
+        st.tuples(st.just("data"), st.integers(0, 7), st.integers(0, 1), st.integers(0, 7), st.binary(min_size=3, max_size=20).map(bytes.hex)).map(list),
+        st.just(["rst"]),
+    )
+    strat3 = st.fixed_dictionaries({"t": st.just("wseq"), "frames": st.lists(fr, min_size=2, max_size=30)})
+    ctx.search(strat3, replay, max_examples=200 if quick else 5000)
